@@ -171,7 +171,7 @@ class Factor:
             new_values = np.nan_to_num(new_values)
             return Factor(self.domain, new_values)
         tmp = other.expand(self.domain)
-        vals = np.divide(self.values, tmp.values, where=tmp.values>0)
+        vals = np.asarray(np.divide(self.values, tmp.values, where=tmp.values>0))
         vals[tmp.values<=0] = 0.0
         return Factor(self.domain, vals) 
 
